@@ -978,4 +978,45 @@ theorem elem_mem {tbl : ClassTable} (sol : TvMap) (T R : Ty) (x : Obj) (xs : Lis
         · cases he
   | _ => simp [elemTy] at he
 
+/-! ### merging several `*iterable`s -/
+
+theorem ca_annotated_right (tbl : ClassTable) (x : Bool) (e t : Ty) :
+    ca tbl x e (.annotated t) = ca tbl x e t := by
+  cases e <;> simp [ca]
+
+theorem ca_annotate (tbl : ClassTable) (x : Bool) (e t : Ty) :
+    ca tbl x e (annotate t) = ca tbl x e t := by
+  cases t <;> simp [annotate, ca_annotated_right]
+
+/-- a declared type accepts a value iff it accepts every member `unite_values` sees in it -/
+theorem flatten1_all (tbl : ClassTable) (x : Bool) (T a : Ty) :
+    (flatten1 a).all (fun m => ca tbl x T m) = ca tbl x T a := by
+  unfold flatten1
+  split
+  · rw [ca_union_right, caAllR_eq_all]
+  · rw [ca_annotated_right, ca_union_right, caAllR_eq_all, List.all_map]
+    simp [Function.comp_def, ca_annotate]
+  · simp
+
+theorem flatMap_flatten1_all (tbl : ClassTable) (x : Bool) (T : Ty) : ∀ (vs : List Ty),
+    (vs.flatMap flatten1).all (fun v => ca tbl x T v) = vs.all fun v => ca tbl x T v
+  | [] => rfl
+  | v :: vs => by
+    simp only [List.flatMap_cons, List.all_append, List.all_cons, flatten1_all,
+      flatMap_flatten1_all tbl x T vs]
+
+theorem ca_unite_all (tbl : ClassTable) (x : Bool) (T : Ty) (vs : List Ty)
+    (h : ∀ a ∈ vs.flatMap flatten1, ∀ b ∈ vs.flatMap flatten1,
+      (Ty.hashEq a b && Ty.beq a b) = true → ca tbl x T a = ca tbl x T b) :
+    ca tbl x T (unite vs) = vs.all fun v => ca tbl x T v := by
+  have hall := dedup_all (fun v => ca tbl x T v) (vs.flatMap flatten1) [] (by simpa using h)
+  simp only [List.nil_append] at hall
+  have hflat := flatMap_flatten1_all tbl x T vs
+  rw [← hflat, ← hall]
+  unfold unite
+  split
+  · rename_i hd; simp [hd, ca_union_right, caAllR]
+  · rename_i v hd; simp [hd]
+  · rw [ca_union_right, caAllR_eq_all]
+
 end Pya.C06
